@@ -95,7 +95,7 @@ pub fn judge(_part: &str, case: &Case, tally: &mut Tally) -> Verdict {
 /// histories in which most feed_str calls carry a single command, so each mutating
 /// command is also judged alone; a priming call first so that "everything dirty after
 /// construction" does not mask anything
-fn gen_single_ops(src: &mut Src, _i: usize) -> Case {
+pub fn gen_single_ops(src: &mut Src, _i: usize) -> Case {
     let (cols, rows) = gen::small_size(src);
     let mut g = G::new(cols, rows);
     let mut case = Case::new(cols, rows, gen::limit(src));
@@ -119,7 +119,7 @@ fn gen_single_ops(src: &mut Src, _i: usize) -> Case {
     case
 }
 
-fn gen_multi(src: &mut Src, _i: usize) -> Case {
+pub fn gen_multi(src: &mut Src, _i: usize) -> Case {
     let (cols, rows) = if src.chance(1, 20) { (80, 24) } else { gen::small_size(src) };
     let mut g = G::new(cols, rows).with_raw(2);
     let mut case = Case::new(cols, rows, gen::limit(src));
